@@ -1229,6 +1229,9 @@ class XsdElement(XsdComponent, ParticleMixin,
                 return True
             elif other.substitution_group == self.name or other.name == self.substitution_group:
                 return True
+            elif any(self.name == x.name for x in other.iter_substitutes()) or \
+                    any(other.name == x.name for x in self.iter_substitutes()):
+                return True  # a member of a multi-level substitution group
         elif isinstance(other, XsdAnyElement):
             if other.is_matching(self.name, self.default_namespace):
                 return True
